@@ -471,3 +471,85 @@ def vec_pop(exe, path, callee, args, dst_ty):
     x = f.pop(n - 1)
     exe.store_at(path, ref.key, ref.proj, Agg('Vec', None, f))
     return [('ret', path, some(x))]
+
+
+@contract(r'^(std::result::)?Result::<.*>::map::<')
+def result_map(exe, path, callee, args, dst_ty):
+    v, clo = args
+    yes, no = fork_variant(exe, path, v, 'Ok')
+    outs = []
+    if yes is not None:
+        outs.append(call_closure(exe, yes, clo, [payload(exe, v, 'Ok')], lambda exe, p, r, d: [('ret', p, ok(r))]))
+    if no is not None:
+        outs.append(('ret', no, v))
+    return outs
+
+
+@contract(r'^(std::result::)?Result::<.*>::map_err::<')
+def result_map_err(exe, path, callee, args, dst_ty):
+    v, clo = args
+    yes, no = fork_variant(exe, path, v, 'Ok')
+    outs = []
+    if yes is not None:
+        outs.append(('ret', yes, v))
+    if no is not None:
+        outs.append(call_closure(exe, no, clo, [payload(exe, v, 'Err')], lambda exe, p, r, d: [('ret', p, err(r))]))
+    return outs
+
+
+@contract(r'^(std::result::)?Result::<.*>::unwrap$')
+def result_unwrap(exe, path, callee, args, dst_ty):
+    v = args[0]
+    yes, no = fork_variant(exe, path, v, 'Ok')
+    outs = []
+    if no is not None:
+        exe.obligation(no, 'panic:unwrap on Err', z3.BoolVal(True), {'callee': callee})
+        outs.append(('diverge', no))
+    if yes is not None:
+        outs.append(('ret', yes, payload(exe, v, 'Ok')))
+    return outs
+
+
+@contract(r'<.* as FnOnce<.*>>::call_once$|<.* as FnMut<.*>>::call_mut$|<.* as Fn<.*>>::call$')
+def fn_call_once(exe, path, callee, args, dst_ty):
+    clo, tup = args
+    if isinstance(clo, Ref):
+        clo = exe.load(path, clo)
+    extra = [tup.fields[i] for i in sorted(tup.fields)] if isinstance(tup, Agg) and tup.name == 'tuple' else []
+    return [call_closure(exe, path, clo, extra)]
+
+
+@contract(r'<Vec<.*> as Deref>::deref$|<Vec<.*> as DerefMut>::deref_mut$|^Vec::<.*>::as_slice$')
+def vec_deref(exe, path, callee, args, dst_ty):
+    return [('ret', path, args[0])]
+
+
+@contract(r'core::slice::<impl \[.*\]>::iter$')
+def slice_iter(exe, path, callee, args, dst_ty):
+    return [('ret', path, Agg('SliceIter', None, {0: args[0], 1: 0}))]
+
+
+@contract(r"<std::slice::Iter<'_, .*> as Iterator>::next$")
+def slice_iter_next(exe, path, callee, args, dst_ty):
+    ref = args[0]
+    it = exe.load(path, ref)
+    src, i = it.fields[0], it.fields[1]
+    v = exe.deref_all(path, src)
+    if not (isinstance(v, Agg) and v.name in ('Vec', 'array')):
+        raise MirUnsupported('slice iter over %r' % (v,))
+    if i >= len(v.fields):
+        return [('ret', path, NONE)]
+    exe.store_at(path, ref.key, ref.proj, it.with_field(1, i + 1))
+    if isinstance(src, Ref):
+        elem = Ref(src.key, src.proj + (('index', i),))
+    else:
+        elem = v.fields[i]
+    return [('ret', path, some(elem))]
+
+
+@contract(r"<&?(mut )?Vec<.*> as IntoIterator>::into_iter$|<std::slice::Iter<'_, .*> as IntoIterator>::into_iter$")
+def into_iter_ident(exe, path, callee, args, dst_ty):
+    a = args[0]
+    if isinstance(a, Agg) and a.name == 'SliceIter':
+        return [('ret', path, a)]
+    return [('ret', path, Agg('SliceIter', None, {0: a, 1: 0}))]
